@@ -208,6 +208,11 @@ func (llb *Buffer) ReadFrom(r io.Reader) (n int64, err error) {
 		}
 		n += int64(m)
 		b = b[:m]
+		if m > 0 && err != nil {
+			// Keep the bytes that came along with EOF or an error.
+			llb.pushBack(&node{buf: b})
+			b = nil
+		}
 		if err == io.EOF {
 			bsPool.Put(b)
 			return n, nil
@@ -215,6 +220,11 @@ func (llb *Buffer) ReadFrom(r io.Reader) (n int64, err error) {
 		if err != nil {
 			bsPool.Put(b)
 			return
+		}
+		if m == 0 {
+			// Nothing was read, don't link an empty node.
+			bsPool.Put(b)
+			continue
 		}
 		llb.pushBack(&node{buf: b})
 	}
